@@ -162,18 +162,59 @@ func Assume(c bool) {
 // Assert states an obligation. primitive.
 func Assert(c bool, label string) {
 	if !c {
+		failures++
 		fmt.Fprintf(out, "VERIF-ASSERT-FAILED %s\n", label)
 	}
 }
 
 // Fail is Assert(false, label). primitive.
-func Fail(label string) { fmt.Fprintf(out, "VERIF-ASSERT-FAILED %s\n", label) }
+func Fail(label string) { failures++; fmt.Fprintf(out, "VERIF-ASSERT-FAILED %s\n", label) }
+
+// failures counts failed obligations natively; quiet suppresses Reach/Observe lines (Stress).
+var (
+	failures int
+	quiet    bool
+)
+
+// Stress runs f once under gsx (where the scheduler explores the interleavings of the
+// goroutines f starts). Natively goroutine schedules cannot be replayed, so f is run again and
+// again (f builds fresh state each time) until an obligation fails, n runs are done or the time
+// budget is used up: the native confirmation of a schedule-dependent violation (a replay file
+// that names the violation it expects; other replays run f once).
+func Stress(n int, budget time.Duration, f func()) {
+	if Symbolic() {
+		f()
+		return
+	}
+	load()
+	if rp.Expect == "" {
+		// replay of a path model for translator validation: one run
+		f()
+		return
+	}
+	deadline := time.Now().Add(budget)
+	for i := 0; i < n && failures == 0; i++ {
+		f()
+		quiet = true
+		if i%64 == 63 && time.Now().After(deadline) {
+			break
+		}
+	}
+	quiet = false
+}
 
 // Reach marks a program point for vacuity checking and trace validation. primitive.
-func Reach(label string) { fmt.Fprintf(out, "VERIF-REACH %s\n", label) }
+func Reach(label string) {
+	if !quiet {
+		fmt.Fprintf(out, "VERIF-REACH %s\n", label)
+	}
+}
 
 // Observe records values for native/symbolic comparison. primitive.
 func Observe(label string, vals ...uint64) {
+	if quiet {
+		return
+	}
 	var sb strings.Builder
 	for _, v := range vals {
 		fmt.Fprintf(&sb, " %x", v)
